@@ -534,7 +534,8 @@ fn check_http(r: &mut Report, thorough: bool) {
     });
     *r = std::mem::take(r).merge(rep);
     // software string containment x version decisiveness x whole signature
-    let strs = ["", "a", "b", "ab", "ba", "aa", "abb", "bab", "Apache", "Apache/2.4.1 (Unix)"];
+    // (p0f compares software strings byte for byte: letter case matters)
+    let strs = ["", "a", "b", "ab", "ba", "aa", "abb", "bab", "Apache", "Apache/2.4.1 (Unix)", "A", "aB", "apache", "APACHE/2.4.1 (UNIX)"];
     for sv in [Version::V10, Version::V11, Version::V20, Version::V30, Version::Any] {
         for ov in [Version::V10, Version::V11, Version::V20, Version::V30] {
             for se in strs {
